@@ -161,8 +161,8 @@ def t_average(sess, config, custom, n_grains, n_steps):
         q = sess.prove_nf(name, p.pc, rules, out[k], want)
         if not q.holds and not bad:
             bad = True
-            sess.cex.append({"name": name, "replay": "vf.props.C10:replay_lookup", "case": {"assemblage": CONFIGS[config][0], "minerals": list(order)},
-                             "cls": {"kind": "stiffness looked up by list position", "assemblage": list(CONFIGS[config][0])}})
+            sess.cex.append({"name": name, "replay": "vf.props.C10:replay_average", "case": {"assemblage": CONFIGS[config][0], "minerals": list(order), "n_steps": n_steps, "n_grains": max(n_grains, 3)},
+                             "cls": {"kind": "Voigt average is not the phase-indexed volume-weighted sum of rotated tensors", "assemblage": list(CONFIGS[config][0])}})
         if q.holds:
             sess.prove_nf(f"{tag}: step {k}: result is symmetric", p.pc, rules, out[k], out[k].transpose())
             # texture-independent invariants: 9K = C_iijj and the deviatoric trace C_ijij
@@ -203,6 +203,48 @@ def replay_lookup(case):
     want = sum(fr[asm.index(m.phase)] * getattr(st, m.phase.name) for m in ms)
     bad = not np.allclose(out, want, rtol=1e-12, atol=1e-9)
     return {"reproduced": bool(bad), "detail": {"got_C11": float(out[0, 0]), "expected_C11": float(want[0, 0])}}
+
+
+def replay_average(case):
+    """Public API against an independent numpy (einsum) oracle on random textures / volumes."""
+    import numpy as np
+    import pydrex
+    from pydrex import core, minerals
+    from scipy.spatial.transform import Rotation
+
+    P = core.MineralPhase
+    rng = np.random.default_rng(5)
+    ns, ng = case["n_steps"], case["n_grains"]
+    st = minerals.StiffnessTensors()
+    asm = [getattr(P, a) for a in case["assemblage"]]
+    fr = [1.0] if len(asm) == 1 else [0.3, 0.7]
+    ms = []
+    for name in case["minerals"]:
+        A = [Rotation.random(ng, random_state=int(rng.integers(1 << 30))).as_matrix() for _ in range(ns)]
+        f = [rng.dirichlet(np.ones(ng)) for _ in range(ns)]
+        m = pydrex.Mineral(phase=getattr(P, name), fabric=core.MineralFabric.olivine_A if name == "olivine" else core.MineralFabric.enstatite_AB,
+                           n_grains=ng, fractions_init=f[0], orientations_init=A[0])
+        m.fractions, m.orientations = list(f), list(A)
+        ms.append(m)
+    out = pydrex.voigt_averages(ms, asm, fr)
+
+    def tens(M):
+        T = np.empty((3, 3, 3, 3))
+        for a, b, c, d in it.product(range(3), repeat=4):
+            T[a, b, c, d] = M[_voigt_index(a, b), _voigt_index(c, d)]
+        return T
+
+    worst = 0.0
+    for k in range(ns):
+        want = np.zeros((6, 6))
+        for m in ms:
+            T = tens(getattr(st, m.phase.name))
+            for g in range(ng):
+                Rm = m.orientations[k][g].T
+                rot = np.einsum("ia,jb,kc,ld,abcd->ijkl", Rm, Rm, Rm, Rm, T)
+                want += np.array([[rot[a, b, c, d] for (c, d) in PAIRS] for (a, b) in PAIRS]) * m.fractions[k][g] * fr[asm.index(m.phase)]
+        worst = max(worst, float(np.abs(out[k] - want).max()))
+    return {"reproduced": bool(worst > 1e-8), "detail": {"max_abs_difference_GPa": worst}}
 
 
 def t_aligned_grain(sess):
